@@ -88,6 +88,35 @@ type probeEnt struct {
 	n    int
 }
 
+// goStartNumber: n of a site "go.start#n", else 0.
+//
+//go:norace
+func goStartNumber(site string) int {
+	const p = "go.start#"
+	if len(site) <= len(p) || site[:len(p)] != p {
+		return 0
+	}
+	n := 0
+	for i := len(p); i < len(site); i++ {
+		c := site[i]
+		if c < '0' || c > '9' {
+			return 0
+		}
+		n = n*10 + int(c-'0')
+	}
+	return n
+}
+
+//go:norace
+func siteBase(site string) string {
+	for i := 0; i < len(site); i++ {
+		if site[i] == '#' {
+			return site[:i]
+		}
+	}
+	return site
+}
+
 //go:norace
 func curGid() uint64 {
 	var buf [64]byte
@@ -176,13 +205,21 @@ func (s *Sched) park(want *sync.Mutex, site string) {
 	if i < 0 && !s.passthrough && s.worldGid != 0 && g != s.worldGid {
 		for j := range s.tasks {
 			if !s.tasks[j].used {
-				s.anonSeq++
 				s.adopted++
-				s.tasks[j] = task{used: true, kind: "anon", id: 0, seq: s.anonSeq, gid: g}
+				kind, seq := "anon", 0
+				if n := goStartNumber(site); n > 0 {
+					// a goroutine started through simGo: numbered by its spawner
+					kind, seq = "go", n
+				} else {
+					s.anonSeq++
+					seq = s.anonSeq
+				}
+				s.tasks[j] = task{used: true, kind: kind, id: 0, seq: seq, gid: g}
 				i, anon = j, true
 				break
 			}
 		}
+		site = siteBase(site)
 	}
 	if i >= 0 && !s.passthrough {
 		t := &s.tasks[i]
